@@ -60,6 +60,7 @@ def run(prog):
             leaky[id(f)] = ("primitive", None)
     # call sites with possible callees
     callmap = {}
+    extra = {}
     for f in fns:
         if not any(b["term"]["k"] == "call" for b in f.blocks):
             continue
@@ -67,6 +68,19 @@ def run(prog):
         sites = []
         for cs in te.calls:
             if cs.exp and cs.callee.name not in ("set_scratch",):
+                continue
+            # a closure literal handed to a foreign function (`own.unwrap_or_else(|| compute_and_cache())`,
+            # `iter.for_each(|x| ..)`): the callee may run it, so the call site counts as a call of the closure
+            cl_targets = []
+            for a in cs.args:
+                a0 = strip(a)
+                while isinstance(a0, tuple) and a0 and a0[0] in ("ref", "deref"):
+                    a0 = strip(a0[1])
+                if isinstance(a0, tuple) and a0 and a0[0] == "agg" and a0[1] == "closure":
+                    cl_targets += [g for g in prog.by_npath.get(a0[2], []) if g.unit == f.unit]
+            if cl_targets and not (cs.callee.local or cs.callee.res_local):
+                extra[id(cs)] = cl_targets
+                sites.append(cs)
                 continue
             if not (cs.callee.local or cs.callee.res_local or cs.callee.closure or cs.callee.def_.startswith("rsdd::")
                     or (cs.callee.trait and not cs.callee.trait.startswith(("std::", "core::", "alloc::")))):
@@ -76,7 +90,9 @@ def run(prog):
             sites.append(cs)
         callmap[id(f)] = (f, sites)
 
-    def lib_resolve(callee, f):
+    def lib_resolve(callee, f, cs=None):
+        if cs is not None and id(cs) in extra:
+            return extra[id(cs)]
         c = callee
         # binaries call the library through its public paths (rsdd::...): map to lib paths by name/self type
         gs = prog.resolve(c)
@@ -99,7 +115,7 @@ def run(prog):
             cfg = f.cfg
             clear_bbs = {cs.bb for cs in f.terms.calls if is_clearer_call(cs)}
             for cs in sites:
-                gs = lib_resolve(cs.callee, f)
+                gs = lib_resolve(cs.callee, f, cs)
                 lk = [g for g in gs if id(g) in leaky]
                 if not lk:
                     continue
@@ -134,7 +150,7 @@ def run(prog):
         if fid in leaky:
             continue
         for cs in sites:
-            gs = lib_resolve(cs.callee, f)
+            gs = lib_resolve(cs.callee, f, cs)
             lk = [g for g in gs if id(g) in leaky]
             if lk and f.kind != "Closure":
                 n_entry += 1
